@@ -62,7 +62,7 @@ def _parse_call(message):
         return None
     src = "f(" + m.group(2) + ")"
     # strip a trailing "(which returns ...)" that the greedy group may have eaten
-    for cut in (" (which returns", " (which raises"):
+    for cut in (" with crosshair.patch_to_return", " (which returns", " (which raises"):
         i = src.find(cut)
         if i >= 0:
             src = src[:i]
@@ -200,6 +200,10 @@ class Context:
 
     def crosshair(self, conds):
         """Run all conditions (and their reachability twins) on the available cores."""
+        only = os.environ.get("VF_ONLY")       # development aid: run a subset; recorded in the evidence notes
+        if only:
+            conds = [c for c in conds if only in c.name]
+            self.notes.append(f"VF_ONLY={only!r}: only a subset of the conditions was run (development run)")
         jobs = []
         with cf.ThreadPoolExecutor(max_workers=NCPU) as ex:
             for c in conds:
